@@ -92,10 +92,12 @@ func (b *pkiBlob) load() (*pki, error) {
 func init() {
 	hlib.Register("parrots", func(in []byte, out *hlib.Out) error {
 		ids := []string{}
+		nalg := map[string]int{} // how many certificate compression algorithms the parrot advertises (read from its spec objects)
 		for _, id := range hlib.ParrotIDs {
 			ids = append(ids, id.Str())
+			nalg[id.Str()] = len(probeClient(id, &tls.Config{ServerName: "example.com", OmitEmptyPsk: true}).compAlgs)
 		}
-		out.Emit(map[string]any{"ev": "Parrots", "ids": ids})
+		out.Emit(map[string]any{"ev": "Parrots", "ids": ids, "compalgs": nalg})
 		return nil
 	})
 	hlib.Register("mkpki", func(in []byte, out *hlib.Out) error {
